@@ -24,6 +24,9 @@ type wq struct {
 	finSent  bool
 	finRRC   bool
 	target   string
+	// embargo bookkeeping (see checkDisembargoes in solo_pump.go)
+	piped [][]int // result paths of calls pipelined on it and sent before its Return was received
+	dis   [][]int // paths of the sender-loopback Disembargoes sent for it
 }
 
 type wireState struct {
@@ -31,6 +34,8 @@ type wireState struct {
 	qs      map[string]map[uint32]*wq
 	all     []*wq
 	exports map[string]map[uint32]int // exporter -> id -> references the other side holds
+	disChecked  int64 // embargoed result paths checked for their Disembargo
+	disSiblings int64 // questions with >= 2 such paths
 }
 
 func otherOf(who string) string {
@@ -76,6 +81,14 @@ func analyzeWire(evs []*rpcbench.Event, w *rpcbench.World) *wireState {
 				if old := ws.qs[x][m.ID]; old != nil {
 					ws.viol("C06/question-id-reuse", fmt.Sprintf("%s re-uses question id %d at stamp %d (previous use: returnReceived=%v finishSent=%v)", x, m.ID, e.T, old.retRecv, old.finSent))
 				}
+				if m.Target != nil && m.Target.Kind == "promisedAnswer" {
+					// mark() precedes the write, handleReturn's parse follows
+					// the delivery: this transform is in question.called when
+					// the Return is parsed
+					if tq := ws.qs[x][m.Target.QID]; tq != nil && !tq.retRecv {
+						tq.piped = append(tq.piped, m.Target.PathOps())
+					}
+				}
 				q := &wq{id: m.ID, who: x, callT: e.T, boot: m.Which == "bootstrap"}
 				if m.Payload != nil {
 					q.uid = m.Payload.UID
@@ -114,11 +127,20 @@ func analyzeWire(evs []*rpcbench.Event, w *rpcbench.World) *wireState {
 				default:
 					q.finSent = true
 					q.finRRC = m.ReleaseResultCaps
+					if q.retRecv && !q.boot {
+						ws.checkDisembargoes(q)
+					}
 					if m.ReleaseResultCaps && q.retSent && q.ret.RetKind == "results" {
 						ws.descs(y, q.ret.Payload, -1)
 					}
 					if q.retRecv {
 						delete(ws.qs[x], m.ID)
+					}
+				}
+			case "disembargo":
+				if m.DisKind == "senderLoopback" && m.Target != nil && m.Target.Kind == "promisedAnswer" {
+					if tq := ws.qs[x][m.Target.QID]; tq != nil {
+						tq.dis = append(tq.dis, m.Target.PathOps())
 					}
 				}
 			case "release":
@@ -158,6 +180,40 @@ func analyzeWire(evs []*rpcbench.Event, w *rpcbench.World) *wireState {
 		}
 	}
 	return ws
+}
+
+// checkDisembargoes: q's Finish was written after its Return had been
+// received (no cancelation in duo runs): the Disembargoes of handleReturn
+// precede it.  One is due for every cap-table entry hosted by the asking side
+// that a path pipelined on before the Return leads to.
+func (ws *wireState) checkDisembargoes(q *wq) {
+	if q.ret == nil || q.ret.RetKind != "results" || q.ret.Payload == nil {
+		return
+	}
+	p := q.ret.Payload
+	have := map[int]bool{}
+	for _, path := range q.dis {
+		if i := p.SlotCapIdx(path); i >= 0 {
+			have[i] = true
+		}
+	}
+	seen := map[int]bool{}
+	n := 0
+	for _, path := range q.piped {
+		i := p.SlotCapIdx(path)
+		if i < 0 || p.Caps[i].Kind != "receiverHosted" || seen[i] {
+			continue
+		}
+		seen[i] = true
+		n++
+		ws.disChecked++
+		if !have[i] {
+			ws.viol("C06/disembargo-missing", fmt.Sprintf("question %d of %s (uid=%x): calls were pipelined on result path %s before the Return, the Return resolved it to receiverHosted:%d, but no sender-loopback Disembargo for it preceded the Finish", q.id, q.who, q.uid, pathStr(path), p.Caps[i].ID))
+		}
+	}
+	if n >= 2 {
+		ws.disSiblings++
+	}
 }
 
 // openQuestions lists questions without a Return (valid at the end of an
